@@ -11,6 +11,7 @@ CONSTANTS
   ArmKinds = {"hreceipt"}
   RemineStatus = {1}
   MidScanHeads = FALSE
+  HeldIntake = FALSE
   MaxHeads = 3
   MaxMine = 1
   MaxPush = 1
